@@ -141,7 +141,7 @@ pub fn ls_check(id: &str) -> Option<LsCheck> {
                 name: "reclaim",
                 cap: Cap::Mixed,
                 validators: vec![Validator::Always, Validator::Always, Validator::Always, Validator::TagGe, Validator::TagEven],
-                modes: vec![Mode::Quiescent],
+                modes: vec![Mode::Quiescent, Mode::Quiescent, Mode::Schedule],
                 ttl_pct: 85,
                 periodic: true,
                 big_advances: false,
@@ -158,7 +158,7 @@ pub fn ls_check(id: &str) -> Option<LsCheck> {
             },
             quick: 20_000,
             thorough: 300_000,
-            rule: "quiescent lock-step cases with a periodic cleanup (interval 100ms..3s, generated phase) fired on the virtual time line; non-trivial = something was reclaimed and (an update of a key sharing its expiry second with another, or interval > 1s, or a deadline within 1ms of a second boundary); distinct by case hash",
+            rule: "lock-step cases (two thirds quiescent, one third with the processor arms firing only where generated, so that ticks also fall on a non-empty insert buffer) with a periodic cleanup (interval 100ms..3s, generated phase) fired on the virtual time line; non-trivial = something was reclaimed and (an update of a key sharing its expiry second with another, or interval > 1s, or a deadline within 1ms of a second boundary); distinct by case hash",
             nontrivial: |f| f.reclaimed > 0 && (f.shared_bucket_updates > 0 || f.long_tick_period || f.boundary_deadlines > 0),
             assumptions: &["'bounded delay' is checked as: gone after the first periodic tick at or after deadline + 1s"],
             scenarios: vec![(500, sweep_race_scenario)],
@@ -252,7 +252,7 @@ pub fn ls_check(id: &str) -> Option<LsCheck> {
             rule: "lock-step cases over a family of validators (always, never, tag>=, even tag, tag differs); non-trivial = insert_if_present on a key that is absent because it was removed/expired/evicted or is only buffered, or a vetoed insert involving a TTL; distinct by case hash",
             nontrivial: |f| f.iip_absent_interesting > 0 || f.vetoes_ttl > 0,
             assumptions: &["an expired but not yet reclaimed entry counts as physically resident (both outcomes are accepted by the property; the model follows the implementation)"],
-            scenarios: vec![],
+            scenarios: vec![(700, collide_veto_scenario)],
         },
         "C10" => LsCheck {
             id: "C10",
@@ -513,17 +513,18 @@ pub fn failures_for(prop: &str, case: &Case, stats: Option<&Stats>, nontrivial: 
                     *stats.other_pred_failures.lock().entry(fl.pred.to_string()).or_insert(0) += 1;
                 }
             }
+            let collide = has_index_collisions(case);
             let mut own: Vec<String> = rep
                 .failures
                 .iter()
-                .filter(|f| f.is_for(prop))
+                .filter(|f| speaks_for(f, prop, collide))
                 .map(|f| format!("[{}] step {}: {}", f.pred, f.step, f.msg))
                 .collect();
             // C09, metamorphic: a vetoed write changes nothing about the resident entry, so a
             // sweep/visibility failure that disappears when the vetoed writes are taken out of the
             // history was caused by one of them
             const SWEEP_PREDS: &[&str] = &["tick_evicts_unexpired", "tick_only_expired", "tick_must_reclaim", "entry_lost", "lookup_lost", "served_after_ttl"];
-            if prop == "C09" && own.is_empty() && !rep.vetoed_ops.is_empty() {
+            if prop == "C09" && !collide && own.is_empty() && !rep.vetoed_ops.is_empty() {
                 if let Some(f) = rep.failures.iter().find(|f| SWEEP_PREDS.contains(&f.pred)) {
                     let mut twin = case.clone();
                     let mut idx = rep.vetoed_ops.clone();
@@ -604,17 +605,25 @@ pub fn run_ls_check(chk: &LsCheck, tier: &str, seed: u64, stats: &Stats) -> Chec
 pub fn replay_ls(prop: &str, case: &Case) -> (Vec<String>, Vec<String>) {
     // key tables with shared indexes are inside the quantifier of C18 only (the other properties
     // tell keys apart by their index hash)
-    if prop != "C18" && has_index_collisions(case) {
-        return (vec![], vec!["skipped: colliding key table is outside this property's quantifier".to_string()]);
-    }
+    let collide = has_index_collisions(case);
     match run_case_caught(case, true) {
         CaseResult::Ok(rep) => (
-            rep.failures.iter().filter(|f| f.is_for(prop)).map(|f| format!("[{}] step {}: {}", f.pred, f.step, f.msg)).collect(),
+            rep.failures.iter().filter(|f| speaks_for(f, prop, collide)).map(|f| format!("[{}] step {}: {}", f.pred, f.step, f.msg)).collect(),
             rep.trace,
         ),
         CaseResult::Panic(p) => (vec![format!("panic: {}", p)], vec![]),
         CaseResult::Harness(h) => (vec![], vec![format!("HARNESS: {}", h)]),
     }
+}
+
+/// Key tables with shared index hashes are inside the quantifier of C18; the other properties tell
+/// keys apart by their index hash, and their model-based predicates do not follow the charge
+/// bookkeeping of colliding keys (observation D9). On such tables only the predicates that need no
+/// model speak for another property.
+const COLLISION_SAFE_PREDS: &[&str] = &["replacement_against_validator"];
+
+pub fn speaks_for(f: &Failure, prop: &str, collide: bool) -> bool {
+    f.is_for(prop) && (!collide || prop == "C18" || COLLISION_SAFE_PREDS.contains(&f.pred))
 }
 
 pub fn has_index_collisions(case: &Case) -> bool {
@@ -633,6 +642,14 @@ pub fn minimize_case(prop: &str, mut case: Case, mut msg: String) -> (Case, Stri
         }
     };
     let mut budget = 4000usize;
+    let t0 = std::time::Instant::now();
+    let tmax = shrink_budget();
+    let fails = |c: &Case| -> Option<String> {
+        if t0.elapsed() > tmax {
+            return None;
+        }
+        fails(c)
+    };
     let mut chunk = (case.ops.len() / 2).max(1);
     while chunk >= 1 && budget > 0 {
         let mut i = 0;
